@@ -372,13 +372,19 @@ inline bool accept_consume(const uint8_t *h) { return accept_header(h) && native
 
 // reference verdict of per-fragment validation against instance configuration `inst`
 // (running library version `running`); frag has at least HDR_LEN bytes + payload per its size field
+// which back-end versions a back end accepts is the back end's own business ("is not one the backend
+// accepts"): harnesses install a query through the exported operation table; the default is the exact
+// match every back end implements today (null accepts everything)
+typedef bool (*accepts_fn)(int backend, uint32_t version);
+inline bool accepts_exact(int backend, uint32_t version) { return backend == B_NULL || version == backend_version(backend); }
+inline accepts_fn &accepts_hook() { static accepts_fn f = accepts_exact; return f; }
 inline bool fragment_invalid(const Config &inst, uint32_t running, const uint8_t *f) {
     if (!accept_header(f) || !native_magic(f)) return true;
     if (get32(f + O_LIBVER) > running) return true;
     uint32_t idx = get32(f + O_IDX);
     if (idx >= (uint32_t)inst.n()) return true;
     if (f[O_BEID] != (uint8_t)inst.backend) return true;
-    if (inst.backend != B_NULL && get32(f + O_BEVER) != backend_version(inst.backend)) return true;
+    if (!accepts_hook()(inst.backend, get32(f + O_BEVER))) return true;
     if (f[O_CT] == 2) {
         uint32_t size = get32(f + O_SIZE), stored = get32(f + O_CHK);
         if (crc32_std(f + HDR_LEN, size) != stored && crc32_legacy(f + HDR_LEN, size) != stored) return true;
